@@ -35,7 +35,9 @@ Definition dec_agree (m : result (value * nat)) (x : result value) : bool :=
   | Err e, Err f => err_class e =? err_class f
   | _, _ => false
   end.
-Definition unmodelled {A} (m : result A) : bool := match m with Err EUnmodelled => true | _ => false end.
+(* Err EFuel: the model's evaluation did not finish within its fuel (nesting deeper than the fuel; CPython stops such
+   inputs with RecursionError at its own, much larger, limit): no verdict, counted like an unmodelled outcome *)
+Definition unmodelled {A} (m : result A) : bool := match m with Err EUnmodelled | Err EFuel => true | _ => false end.
 Fixpoint collect {A B} (agree : A -> B -> bool) (um : A -> bool) (l : list (A * B)) (i : Z) : list Z * list Z :=
   match l with
   | [] => ([], [])
@@ -98,7 +100,7 @@ def run_shards(ctx, name, imports, shards):
     parsed results per shard."""
     def one(i_body):
         i, body = i_body
-        return ctx.coq_eval('%s_%d' % (name, i), imports, body)
+        return ctx.coq_eval('%s_%d' % (name.replace('-', '_'), i), imports, body)
     # build imports once, sequentially (coq_eval builds lazily under a lock)
     if shards:
         first = one((0, shards[0]))
